@@ -118,7 +118,7 @@ pub fn generate(rng: &mut Rng, max_ops: usize) -> Workload {
         let len = a.len();
         // an erroring operation, if wanted, comes last
         if last && want_error {
-            let choice = rng.below(5);
+            let choice = rng.below(9);
             let bad = len as i64 + rng.below(3) as i64;
             let line = line_of(&src);
             match choice {
@@ -141,6 +141,33 @@ pub fn generate(rng: &mut Rng, max_ops: usize) -> Workload {
                 3 => {
                     src.push_str(&format!("a.swap(0, {bad})\n"));
                     descr.push(format!("swap(0,{bad})!"));
+                }
+                5 => {
+                    // the value read is not used at all: the access must still be checked
+                    src.push_str(&format!("let bad_i = {bad}\n"));
+                    // followed by another statement, so the value really is thrown away
+                    src.push_str("a[bad_i]\nobs(9999, \"not reached\")\n");
+                    descr.push(format!("discarded-get({bad})!"));
+                    error = Some(line + 1);
+                }
+                6 => {
+                    src.push_str(&format!("let bad_i = {bad}\n"));
+                    src.push_str("let unused = a[bad_i]\n");
+                    descr.push(format!("unused-get({bad})!"));
+                    error = Some(line + 1);
+                }
+                7 => {
+                    src.push_str("let neg_i = 0 - 1\n");
+                    src.push_str(&format!("obs({tag}, show_e(a[neg_i]))\n"));
+                    descr.push("get(-1)!".into());
+                    error = Some(line + 1);
+                }
+                8 => {
+                    let v = fresh(rng, kind, true);
+                    src.push_str("let neg_i = 0 - 1\n");
+                    src.push_str(&format!("a[neg_i] = {}\n", v.src()));
+                    descr.push("set(-1)!".into());
+                    error = Some(line + 1);
                 }
                 _ => {
                     src.push_str(&format!("a.remove({bad})\n"));
@@ -247,6 +274,12 @@ pub fn generate(rng: &mut Rng, max_ops: usize) -> Workload {
                 obs.push((tag, v.show()));
                 tag += 1;
                 descr.push("pop".into());
+            }
+            8 if len > 0 && rng.chance(1, 3) => {
+                // an in-range read whose value is discarded changes nothing
+                let i = rng.below(len as u64) as usize;
+                src.push_str(&format!("let keep_i{tag} = {i}\na[keep_i{tag}]\n"));
+                descr.push(format!("discarded-get({i})"));
             }
             8 => {
                 src.push_str(&format!(
